@@ -1,6 +1,7 @@
 """C07 — run lifecycle frames complete, unique, causally ordered (structural clauses)."""
 import re
 
+from .common import run_session_body
 from ..core import CheckError, Site, op_base, op_const, op_local, switches
 from ..effects import Effects
 from ..prov import sources
@@ -35,7 +36,7 @@ def run_session_states(P):
     """flag-correlated abstract interpretation of run_session over (block, terminal frames
     emitted in {0,1,2+}, skip_runtime_loop in {None,F,T}). Returns a dict used by C07.2, C07.3
     and C01.7."""
-    rs = P.body('ripd::session::run_session')
+    rs = run_session_body(P)
     term_blocks = {}
     for c in rs.calls(r'^ripd::session::emit_event$'):
         if event_kind_of(rs, c.args[0]) == 'SessionEnded':
@@ -161,19 +162,23 @@ def run(ctx):
     ctx.rule('C07.5', 'a compaction job is ended at most once: the append_job_ended sites are mutually unreachable and outside loops.')
     ctx.rule('C07.6', 'Runtime::register_hook has no caller in production code (an aborting hook would end a session before its start frame).')
 
-    rs = P.body('ripd::session::run_session')
+    rs = run_session_body(P, note=ctx.note)
     ctx.touch(rs)
+    rs_paths = {rs.path} | set(getattr(rs, 'inlined_bodies', ()))
+
+    def in_rs(site):
+        return site.fn.path in rs_paths
     # ---------------------------------------------------------------- C07.1
     enders = P.callers(r'^ripd::continuities::ContinuityStore::append_run_ended$')
     ctx.floor('C07.1', 'append_run_ended call sites', len(enders), 1)
     for s in enders:
-        ctx.ob('C07.1', s.fn, 'run-ended-only-in-run_session', s.fn is rs and len(enders) == 1, 'append_run_ended called from %s (%d site(s) in the workspace)' % (s.fn.path, len(enders)), line=s.line)
+        ctx.ob('C07.1', s.fn, 'run-ended-only-in-run_session', in_rs(s) and len(enders) == 1, 'append_run_ended called from %s (%d site(s) in the workspace)' % (s.fn.path, len(enders)), line=s.line)
     snaps = rs.calls(r'^rip_log::write_snapshot$')
     rets = rs.returns()
     if not snaps:
         raise CheckError('C07.1: run_session has no write_snapshot call')
     ctx.ob('C07.1', rs, 'snapshot-on-every-path', rs.must_pass([s.bb for s in snaps], 0, rets), 'every path from entry to return passes write_snapshot', line=snaps[0].line)
-    end = [s for s in enders if s.fn is rs]
+    end = rs.calls(r'ContinuityStore::append_run_ended$')
     if end:
         e = end[0]
         ctx.ob('C07.1', rs, 'run-ended-after-snapshot', any(rs.dom(s.bb, e.bb) for s in snaps), 'write_snapshot dominates append_run_ended', line=e.line)
@@ -288,6 +293,9 @@ def run(ctx):
 
     # ---------------------------------------------------------------- C07.4
     pm = P.body('ripd::server::thread_post_message')
+    from ..inline import inline_calls, contains
+    _wpm = contains(rx_calls=r'ContinuityStore::append_(message|run_spawned)$|spawn_session$')
+    pm = inline_calls(P, pm, lambda body, callee: callee.startswith('ripd::server::') and not re.search(r'spawn_session$', callee) and _wpm(body, callee), depth=2, note=ctx.note)
     ctx.touch(pm)
     am = pm.calls(r'ContinuityStore::append_message$')
     ar = pm.calls(r'ContinuityStore::append_run_spawned$')
@@ -355,7 +363,7 @@ def run(ctx):
             so = cf.origin(rv['a'][rv['fields'].index('stage')])
             okc = k is not None and k.get('v') == '0' and so[0] == 'rv' and so[1].get('variant') == 'Start'
         ctx.ob('C07.7', cf, 'session-starts-at-0', okc and len(ags) == 1, 'a new Session has seq 0 and stage Start', line=cf.line)
-    others = [s for s in P.callers(r'^rip_kernel::Session::set_seq$') if s.fn is not rs]
+    others = [s for s in P.callers(r'^rip_kernel::Session::set_seq$') if not in_rs(s)]
     ctx.ob('C07.7', 'workspace', 'seq-setter-callers', not others, 'Session::set_seq is only called from run_session (%d other caller(s))' % len(others))
     first_next = [s for s in rs.calls(r'^rip_kernel::Session::next_event$') if not rs.in_loop(s.bb)]
     emits_all = rs.calls(r'^ripd::session::emit_events?$')
